@@ -30,3 +30,26 @@ Example c16_nonvacuous :
   let s := [69;83;84;53;69;68;84;44;77;51;46;50;46;48;44;77;49;49;46;49;46;48] in
   nul_free s = true /\ exists r, ParsePosixSpec s = Some r /\ dst_offset r = Some (-14400).
 Proof. vm_compute. split; [reflexivity | eexists; split; reflexivity]. Qed.
+
+From CCTZ Require Import SourcePosix SourcePosixProofs.
+
+(* SOURCE-DERIVED parser (SourcePosix.v, regenerated from clang's AST of src/time_zone_posix.cc on every
+   run: pointers as buffer indices, output parameters returned): for every spec string it never errs
+   (no out-of-bounds read, null dereference or int overflow; fuel length+2 suffices), accepts exactly
+   what the hand-written model accepts and yields the same fields *)
+Theorem src_posix_parser_tie : forall spec, bytes_ok spec -> Z.of_nat (length spec) < 2 ^ 64 ->
+  forall (i_dabbr : list Z) (i1 i2 i3 i4 i5 i6 i7 i8 i9 i10 i11 i12 i13 i14 i15 : Z) (i_sabbr : list Z) (i16 : Z),
+  exists ok dabbr e_fmt e_j e_mm e_mw e_mwd e_n e_t doff s_fmt s_j s_mm s_mw s_mwd s_n s_t sabbr soff,
+    sp_ParsePosixSpec (sp_fuel spec) spec i_dabbr i1 i2 i3 i4 i5 i6 i7 i8 i9 i10 i11 i12 i13 i14 i15 i_sabbr i16
+      = OK (ok, dabbr, e_fmt, e_j, e_mm, e_mw, e_mwd, e_n, e_t, doff, s_fmt, s_j, s_mm, s_mw, s_mwd, s_n, s_t, sabbr, soff) /\
+    match ParsePosixSpec spec with
+    | None => ok = false
+    | Some z => ok = true /\ sabbr = std_abbr z /\ std_offset z = Some soff /\
+        (dst_abbr z = [] \/
+         (dabbr = dst_abbr z /\ dst_offset z = Some doff /\
+          agrees_trans (dst_start z) s_fmt s_j s_mm s_mw s_mwd s_n s_t /\
+          agrees_trans (dst_end z) e_fmt e_j e_mm e_mw e_mwd e_n e_t))
+    end.
+Proof. exact sp_ParsePosixSpec_tie. Qed.
+Print Assumptions src_posix_parser_tie.
+
